@@ -43,7 +43,11 @@ fn handshake<P: Pid>(c: &mut ConnBox<P>, ver: Ver, as_client: bool, which: usize
         // v5.0: Clean Start 0 without a Session Expiry Interval, answered with "session not present"
         _ => (ConnProf::resume_no_expiry(), AckProf::basic(false)),
     };
-    if as_client {
+    if which == UNSOLICITED {
+        // the peer's first bytes are a CONNACK ("session not present") although no CONNECT was sent: the
+        // library processes it (two tests of the repository rely on that) - then like a fresh object does
+        recv(c, &mut t, AckProf::basic(false).ap(ver));
+    } else if as_client {
         send(c, &mut t, cp.ap(ver));
         recv(c, &mut t, ap.ap(ver));
     } else {
@@ -52,6 +56,7 @@ fn handshake<P: Pid>(c: &mut ConnBox<P>, ver: Ver, as_client: bool, which: usize
     }
     t
 }
+const UNSOLICITED: usize = 9;
 
 /// fixed probe script run after the handshake: the trace net that catches state the snapshot
 /// might not list
@@ -198,7 +203,7 @@ pub fn c10(rep: &mut Report) {
                 None => return (0, out),
             };
             for as_client in sides_of(w.cfg.role) {
-                for which in 0..if ver == Ver::V5 { 4 } else { 3 } {
+                for which in (0..if ver == Ver::V5 { 4 } else { 3 }).chain(if as_client { Some(UNSOLICITED) } else { None }) {
                     n += 1;
                     let r = guarded(|| {
                         let mut a = w.conn.clone();
@@ -475,6 +480,21 @@ fn continuations<P: Pid>(ver: Ver) -> Vec<(String, Box<dyn Fn(&mut ConnBox<P>) -
     v
 }
 
+/// when the export is handed to the new object relative to the handshake
+#[derive(Clone, Copy, PartialEq, Debug)]
+enum Late {
+    /// before the CONNECT
+    No,
+    /// between CONNECT and CONNACK
+    Plain,
+    /// ... and the transport is lost before the CONNACK; the next attempt resumes
+    Lost,
+    /// ... and the peer's acknowledgement of the first restored packet arrives ahead of the CONNACK
+    EarlyAck,
+    /// ... and the CONNACK says "session not present"
+    NotPresent,
+}
+
 pub fn c16(rep: &mut Report) {
     let thorough = rep.thorough();
     let mut compared = 0u64;
@@ -527,18 +547,23 @@ pub fn c16(rep: &mut Report) {
             let x_handled = w.conn.handled();
             // (Receive Maximum of the resuming connection, a connection attempt that dies before the CONNACK first)
             // (..., the application re-applies its - default - option values after the restore / before reconnecting)
-            let mut variants: Vec<(Option<u16>, bool, bool)> = if ver == Ver::V5 { vec![(None, false, false), (Some(1u16), false, false)] } else { vec![(None, false, false)] };
-            variants.push((None, true, false));
-            variants.push((None, true, true));
+            let mut variants: Vec<(Option<u16>, bool, bool, Late)> = if ver == Ver::V5 { vec![(None, false, false, Late::No), (Some(1u16), false, false, Late::No)] } else { vec![(None, false, false, Late::No)] };
+            variants.push((None, true, false, Late::No));
+            variants.push((None, true, true, Late::No));
             // a server only learns from the CONNECT whose session to restore: restore_*() between the CONNECT
-            // and the CONNACK (encoded as failed_first = false, reapply_options = true, on the server side)
-            let restore_late_variants: Vec<Option<u16>> = if !as_client { if ver == Ver::V5 { vec![None, Some(1u16)] } else { vec![None] } } else { vec![] };
-            for rm in restore_late_variants {
-                variants.push((rm, false, true));
+            // and the CONNACK. Then: the CONNACK (session present) | the transport is lost before the CONNACK and
+            // the next attempt resumes | the peer's acknowledgement of the first restored packet arrives ahead of
+            // the CONNACK | the CONNACK says "session not present" (what was restored is the session before the
+            // CONNECT and goes). A client may restore in the same window.
+            let late_rms: Vec<Option<u16>> = if !as_client && ver == Ver::V5 { vec![None, Some(1u16)] } else { vec![None] };
+            for rm in late_rms {
+                variants.push((rm, false, false, Late::Plain));
             }
-            for (rm, failed_first, reapply_options) in variants {
-                let restore_late = !failed_first && reapply_options;
-                let reapply_options = reapply_options && failed_first;
+            for l in [Late::Lost, Late::EarlyAck, Late::NotPresent] {
+                variants.push((None, false, false, l));
+            }
+            for (rm, failed_first, reapply_options, late) in variants {
+                let restore_late = late != Late::No;
                 n += 1;
                 let r = guarded(|| {
                     let mut a = w.conn.clone();
@@ -603,17 +628,72 @@ pub fn c16(rep: &mut Report) {
                         }
                     }
                     if restore_late {
-                        // server side: CONNECT received, then the session is restored, then the CONNACK is sent
-                        let cp = ConnProf { rm, ..ConnProf::basic(false) };
-                        recv(&mut a, &mut ta, cp.ap(ver));
-                        recv(&mut b, &mut tb, cp.ap(ver));
+                        // CONNECT received (server) / sent (client), then the session is restored, then the CONNACK
+                        // (the early acknowledgement is tried on an attempt that resumes without asking for a
+                        // session expiry: until the CONNACK the session is still the persistent one it was)
+                        let cp = if late == Late::EarlyAck { ConnProf { rm, ..ConnProf::resume_no_expiry() } } else { ConnProf { rm, ..ConnProf::basic(false) } };
+                        if as_client {
+                            send(&mut a, &mut ta, cp.ap(ver));
+                            send(&mut b, &mut tb, cp.ap(ver));
+                        } else {
+                            recv(&mut a, &mut ta, cp.ap(ver));
+                            recv(&mut b, &mut tb, cp.ap(ver));
+                        }
                         b.restore_packets(x_store.clone());
                         b.restore_handled(&x_handled);
                         if a.vacancy() != b.vacancy() {
                             direct.push(format!("restored after the CONNECT: vacancy {:?} on the original, {:?} on the restored object", a.vacancy(), b.vacancy()));
                         }
-                        send(&mut a, &mut ta, AckProf::basic(true).ap(ver));
-                        send(&mut b, &mut tb, AckProf::basic(true).ap(ver));
+                        let connack = |c: &mut ConnBox<u16>, t: &mut Trace, sp: bool| {
+                            if as_client {
+                                recv(c, t, AckProf::basic(sp).ap(ver));
+                            } else {
+                                send(c, t, AckProf::basic(sp).ap(ver));
+                            }
+                        };
+                        match late {
+                            Late::Lost => {
+                                for (c, t) in [(&mut a, &mut ta), (&mut b, &mut tb)] {
+                                    let e = c.notify_closed();
+                                    t.push(("notify_closed() before the CONNACK".into(), e));
+                                }
+                                ta.extend(resume(&mut a, ver, as_client, rm));
+                                tb.extend(resume(&mut b, ver, as_client, rm));
+                            }
+                            Late::EarlyAck => {
+                                if let Some(p) = x_store.first() {
+                                    let id = p.packet_id() as u32;
+                                    let g: mqtt_protocol_core::mqtt::packet::GenericPacket<u16> = p.clone().into();
+                                    let kind = match bridge::read(&g) {
+                                        AP::Publish { qos: 1, .. } => AckKind::Puback,
+                                        AP::Publish { .. } => AckKind::Pubrec,
+                                        _ => AckKind::Pubcomp,
+                                    };
+                                    let ack = AP::Ack { ver, kind, pid: id, code: None, props: None };
+                                    recv(&mut a, &mut ta, ack.clone());
+                                    recv(&mut b, &mut tb, ack);
+                                }
+                                connack(&mut a, &mut ta, true);
+                                connack(&mut b, &mut tb, true);
+                            }
+                            Late::NotPresent => {
+                                connack(&mut a, &mut ta, false);
+                                connack(&mut b, &mut tb, false);
+                                if !b.stored().is_empty() || !b.handled().is_empty() {
+                                    direct.push(format!("session not present after a restore between CONNECT and CONNACK: the restored object still stores ids {:?} and suppresses QoS 2 ids {:?}", b.stored().iter().map(|p| p.packet_id()).collect::<Vec<_>>(), b.handled()));
+                                }
+                                for p in &x_store {
+                                    let id = p.packet_id() as u32;
+                                    if b.clone().register(id).is_err() {
+                                        direct.push(format!("session not present after a restore between CONNECT and CONNACK: restored id {id} is still in use"));
+                                    }
+                                }
+                            }
+                            _ => {
+                                connack(&mut a, &mut ta, true);
+                                connack(&mut b, &mut tb, true);
+                            }
+                        }
                     } else {
                         ta.extend(resume(&mut a, ver, as_client, rm));
                         tb.extend(resume(&mut b, ver, as_client, rm));
@@ -623,7 +703,7 @@ pub fn c16(rep: &mut Report) {
                     // absolute clauses on the restored object: retransmission = the export, in order;
                     // every stored packet's acknowledgement is accepted and releases the id; QoS 2
                     // duplicates of handled ids are answered with PUBREC and not notified
-                    {
+                    if !matches!(late, Late::EarlyAck | Late::NotPresent) {
                         use mqtt_protocol_core::mqtt::packet::GenericPacketTrait;
                         let want: Vec<Vec<u8>> = x_store.iter().map(|p| p.to_continuous_buffer()).collect();
                         let got: Vec<Vec<u8>> = tb.iter().flat_map(|s| s.1.iter()).filter_map(|e| if let Ev::Send { bytes, ap, .. } = e { if matches!(ap, AP::Connack { .. } | AP::Connect { .. }) { None } else { Some(bytes.clone()) } } else { None }).collect();
@@ -682,10 +762,10 @@ pub fn c16(rep: &mut Report) {
                             out.push(Violation { rule: "c16.restored-behaviour".into(), sig: format!("c16.restored-behaviour|{kind}"), detail: format!("[{name}] {d}"), config: name.clone(), history: hist.clone() });
                         }
                         if let Some((step, x, y)) = first_diff(&ta, &tb) {
-                            out.push(Violation { rule: "c16.resume-events".into(), sig: format!("c16.resume-events|{}|rm={rm:?}{}", step.split(' ').take(2).collect::<Vec<_>>().join(" "), if reapply_options { "|after a failed attempt, options re-applied" } else if failed_first { "|after a failed attempt" } else { "" }), detail: format!("[{name}] resume (Receive Maximum {rm:?}{}): at '{step}' the original returns {x:?}, the restored object {y:?}", if failed_first { ", after a connection attempt that was closed before the CONNACK" } else { "" }), config: name.clone(), history: hist.clone() });
+                            out.push(Violation { rule: "c16.resume-events".into(), sig: format!("c16.resume-events|{}|rm={rm:?}{}", step.split(' ').take(2).collect::<Vec<_>>().join(" "), if reapply_options { "|after a failed attempt, options re-applied".to_string() } else if failed_first { "|after a failed attempt".to_string() } else if late != Late::No { format!("|restored between CONNECT and CONNACK ({late:?})") } else { String::new() }), detail: format!("[{name}] resume (Receive Maximum {rm:?}{}): at '{step}' the original returns {x:?}, the restored object {y:?}", if failed_first { ", after a connection attempt that was closed before the CONNACK".to_string() } else if late != Late::No { format!(", export handed over between CONNECT and CONNACK ({late:?})") } else { String::new() }), config: name.clone(), history: hist.clone() });
                         } else if sa != sb {
                             let (names, text) = debug_diff(&sa, &sb);
-                            out.push(Violation { rule: "c16.state".into(), sig: format!("c16.state|{}", names.join("+")), detail: format!("[{name}] after resuming, the restored object differs from the original in {names:?}: {text}"), config: name.clone(), history: hist.clone() });
+                            out.push(Violation { rule: "c16.state".into(), sig: format!("c16.state|{}{}", names.join("+"), if late != Late::No { format!("|{late:?}") } else { String::new() }), detail: format!("[{name}] after resuming (restore: {late:?}), the restored object differs from the original in {names:?}: {text}"), config: name.clone(), history: hist.clone() });
                         } else if let Some((label, x, y, names)) = cd {
                             out.push(Violation { rule: "c16.continuation".into(), sig: format!("c16.continuation|{}", label.split(' ').take(2).collect::<Vec<_>>().join(" ")), detail: format!("[{name}] continuation '{label}': original {x:?} vs restored {y:?} (state fields differing: {names:?})"), config: name.clone(), history: hist.clone() });
                         }
